@@ -54,6 +54,8 @@ def traced(kind="np", capacity=0, context=None, default_alignment=None, grow_ste
 
 def poison(n, salt=0):
     """deterministic non-zero garbage"""
+    if n > 4096:  # the same bytes, computed with numpy
+        return (((np.arange(n, dtype=np.int64) * 73 + salt * 29 + 0xA5) % 251) + 1).astype("u1").tobytes()
     return bytes(((i * 73 + salt * 29 + 0xA5) % 251) + 1 for i in range(n))
 
 
@@ -131,6 +133,21 @@ def place(name, size, salt=0):
         b.free(h, big)
         b.log.clear()
         return Placed(dict(_buffer=b, _offset="packed"), b, h, [(a, pre, pa), (c, post, pc)])
+    if name == "al16-hole":
+        # a buffer aligned to 16 bytes with a freed hole between two live neighbours; the hole starts at 13 and is two bytes
+        # longer than the object: large enough for it as such, too small once its start is rounded up to 16
+        pre, post = 13, 5
+        b = traced("np", pre + size + 2 + post, default_alignment=16)
+        a = b.allocate(pre, align=False)
+        h = b.allocate(size + 2, align=False)
+        c = b.allocate(post, align=False)
+        pa, pc = poison(pre, salt + 1), poison(post, salt + 2)
+        b.update_from_buffer(a, pa)
+        b.update_from_buffer(c, pc)
+        b.update_from_buffer(h, poison(size + 2, salt + 3))
+        b.free(h, size + 2)
+        b.log.clear()
+        return Placed(dict(_buffer=b), b, None, [(a, pre, pa), (c, post, pc)])
     if name == "grown16":
         # as "grown", in a buffer whose regions are aligned to 16 bytes: every allocation after an object whose size is
         # an odd number of slots is preceded by padding
